@@ -155,6 +155,8 @@ __CPROVER_ensures (w == vp_reg.mu_word || (vp_g.spin == __CPROVER_old (vp_g.spin
 					    vp_g.enq_long == __CPROVER_old (vp_g.enq_long) && vp_g.last_new == __CPROVER_old (vp_g.last_new)))
 __CPROVER_ensures (w == vp_reg.cv_word || vp_cvg.spin == __CPROVER_old (vp_cvg.spin))
 __CPROVER_ensures (w != vp_reg.cv_word || (vp_cvg.spin == 1 && (__CPROVER_return_value & ~CV_NON_EMPTY) == 0 && *w == ((__CPROVER_return_value | set) & ~clear)))
+/* J (cv): with the spinlock free, CV_NON_EMPTY clear implies an empty queue; the caller now owns the spinlock and may rely on it */
+__CPROVER_ensures (w != vp_reg.cv_word || (__CPROVER_return_value & CV_NON_EMPTY) != 0 || ((nsync_cv *) ((char *) w - offsetof (nsync_cv, word)))->waiters == NULL)
 __CPROVER_ensures (w != vp_reg.mu_word ||
 		   (vp_g.spin == 1 && !vp_g.dead && vp_g.hold == __CPROVER_old (vp_g.hold) && vp_g.waited == __CPROVER_old (vp_g.waited) &&
 		    vp_g.queued == __CPROVER_old (vp_g.queued) && vp_g.set_desig == __CPROVER_old (vp_g.set_desig)))
